@@ -35,8 +35,10 @@ def aggregate(prop, mod, tier, seed, results, info, wall):
     reported, suppressed = [], {}
     for v in viols:
         key = v.get("finding")
-        if key and key in known:
-            suppressed.setdefault(key, []).append(v)
+        keys = key.split("+") if key else []
+        if keys and all(k in known for k in keys):
+            for k in keys:
+                suppressed.setdefault(k, []).append(v)
         else:
             reported.append(v)
     # run-level observation requirement
@@ -122,8 +124,10 @@ def main():
         print(json.dumps({k: v for k, v in res.items() if k != "spec"}, indent=1, default=str))
         if res.get("status") == common.VIOL:
             known = common.open_findings(prop)
-            if res.get("finding") in known:
-                print("KNOWN-FINDING: property=%s %s" % (prop, known[res["finding"]]["what"]))
+            fk = (res.get("finding") or "").split("+")
+            if res.get("finding") and all(k in known for k in fk):
+                for k in fk:
+                    print("KNOWN-FINDING: property=%s %s" % (prop, known[k]["what"]))
                 return 0
             print("VIOLATION property=%s replay=%s" % (prop, a.replay or "idx:%d" % a.idx))
             return 1
